@@ -143,8 +143,9 @@ Subst(p, sg) ==
       [] OTHER                -> Tm(p.k, p.s, <<Subst(p.c[1], sg), Subst(p.c[2], sg)>>)
 
 (* The outcome rule.  cands: set of candidate records [l, ps, o]; args: tuple of types; rk: label -> rank (supplied);
-   o: [kind, sel, bind (set of <<var, type>>), out, tied (set of labels)].  Returns "" or the first clause that fails. *)
-AFail(cands, args, rk, o) ==
+   o: [kind, sel, bind (set of <<var, type>>), out, tied (set of labels)].  Returns "" or the first clause that fails.
+   AFail (end of the module) = AFailCore + the formula-independent subsumption clause. *)
+AFailCore(cands, args, rk, o) ==
     LET M    == {c \in cands : MatchesA(c, args)}
         best == MinOf({rk[c.l] : c \in M})
         Best == {c \in M : rk[c.l] = best}
@@ -394,5 +395,95 @@ ArgsB == <<
     <<TSL(TSi, "3"), TSf>>, <<TSD(SInt, TSf), SInt>>, <<TSD(SStr, TSs), TSi>>, <<TSD(SInt, TSf), SFlt>>,            \* 21-24
     <<TSS(SInt), TSi>>, <<TSS(SInt), TSs>>, <<REF(TSi), REF(TSi)>>, <<REF(TSi), TSf>>, <<TSi, SIG>>,                \* 25-29
     <<TSS(SInt), SIG>>, <<TSB(TSi, TSf), TSi>>, <<TSB(TSi, TSf), TSf>>, <<TSL(TSi, "0"), TSL(TSi, "2")>> >>         \* 30-33
+
+-----------------------------------------------------------------------------
+(* LEVEL A, continued: a formula-independent consequence of "most specific" - pattern subsumption.                   *)
+(*                                                                                                                   *)
+(* GenC(P, Q): P is at least as general as Q, decided structurally: match P's parameter patterns against Q's         *)
+(* parameter patterns read as terms (Q's variables are constants); a variable of P subsumes any term of its sort,    *)
+(* constructors subsume component-wise, and the bindings must be functional - so a repeated variable is more         *)
+(* specific than distinct ones.  REF and concrete-leaf wrappers are normalised away first (REF[X] is type-compatible *)
+(* with X; !T accepts exactly what the ground structural pattern T accepts; a concrete dynamic list is the size      *)
+(* "dyn", not the pattern wildcard "0").  Sub-terms of Q that are themselves wildcards (SIGNAL, TSL size 0, a        *)
+(* numeric scalar parameter, which also takes the other numeric type) carry their position, so a variable of P can   *)
+(* absorb one of them but two of them never unify.  SIGNAL does not subsume patterns that accept plain values.       *)
+(* MoreGeneral(P, Q): GenC(P, Q) and some argument tuple of the checked universe is matched by P and not by Q.       *)
+(* MCResolution checks (ASSUME) that GenC is sound on the universe: whatever Q matches there, P matches.             *)
+RECURSIVE NormT(_)
+NormT(t) == IF t.k = "REF" THEN NormT(t.c[1])
+            ELSE Tm(t.k, IF t.k = "TSL" /\ t.s = "0" THEN "dyn" ELSE t.s, MapC(t.c, NormT))
+RECURSIVE Norm(_)
+Norm(p) == IF p.k = "REF" THEN Norm(p.c[1]) ELSE IF p.k = "conc" THEN NormT(p.c[1]) ELSE Tm(p.k, p.s, MapC(p.c, Norm))
+
+RECURSIVE HasWild(_)
+HasWild(q) == q.k = "SIG" \/ (q.k = "TSL" /\ q.s = "0") \/ \E i \in 1..Len(q.c) : HasWild(q.c[i])
+Tag(q, path) == IF HasWild(q) THEN path ELSE <<>>
+
+Bad3        == [ok |-> FALSE, cs |-> {}]
+Good3(cs)   == [ok |-> TRUE, cs |-> cs]
+Both3(x, y) == [ok |-> x.ok /\ y.ok, cs |-> x.cs \cup y.cs]
+
+GenS(p, q) == IF p.k = "sv" THEN Good3({<<p.s, q, <<>> >>}) ELSE IF p = q THEN Good3({}) ELSE Bad3
+
+RECURSIVE GenT(_, _, _)
+GenT(p, q, path) ==
+    IF p.k = "SIG" THEN (IF q.k \in {"TSS", "TSL", "TSD", "TSB", "SIG"} THEN Good3({}) ELSE Bad3)   \* tv / TS take plain values
+    ELSE IF p.k = "tv" THEN (IF IsScalarTerm(q) THEN Bad3 ELSE Good3({<<p.s, q, Tag(q, path)>>}))
+    ELSE IF q.k \in {"SIG", "tv"} THEN Bad3
+    ELSE CASE p.k \in {"TS", "TSS"} -> IF q.k = p.k THEN GenS(p.c[1], q.c[1]) ELSE Bad3
+           [] p.k = "TSL" -> IF q.k # "TSL" THEN Bad3
+                             ELSE Both3(IF p.s = "0" THEN Good3({})
+                                        ELSE IF p.s \in SizeVars
+                                             THEN Good3({<<p.s, Sz(q.s), IF q.s = "0" THEN path ELSE <<>> >>})
+                                        ELSE IF p.s = q.s THEN Good3({}) ELSE Bad3,
+                                        GenT(p.c[1], q.c[1], path \o <<1>>))
+           [] p.k = "TSD" -> IF q.k # "TSD" THEN Bad3
+                             ELSE Both3(GenS(p.c[1], q.c[1]), GenT(p.c[2], q.c[2], path \o <<2>>))
+           [] p.k = "TSB" -> IF q.k # "TSB" \/ q.s # p.s \/ Len(q.c) # Len(p.c) THEN Bad3
+                             ELSE Both3(GenT(p.c[1], q.c[1], path \o <<1>>), GenT(p.c[2], q.c[2], path \o <<2>>))
+           [] OTHER       -> Bad3
+
+GenP(p, q, i) ==
+    IF IsScalarTerm(p) /\ IsScalarTerm(q)
+    THEN IF p.k = "sv" THEN Good3({<<p.s, IF q.k = "sc" /\ q.s \in Numeric THEN Sc("numeric") ELSE q,
+                                     IF q.k = "sc" /\ q.s \in Numeric THEN <<i>> ELSE <<>> >>})
+         ELSE IF q.k = "sc" /\ (p.s = q.s \/ (p.s \in Numeric /\ q.s \in Numeric)) THEN Good3({}) ELSE Bad3
+    ELSE IF IsScalarTerm(p) \/ IsScalarTerm(q) THEN Bad3          \* a scalar and a time-series parameter: not compared
+    ELSE GenT(Norm(p), Norm(q), <<i>>)
+
+RECURSIVE GenFrom(_, _, _)
+GenFrom(ps, qs, i) == IF i > Len(ps) THEN Good3({}) ELSE Both3(GenP(ps[i], qs[i], i), GenFrom(ps, qs, i + 1))
+Functional3(cs) == \A x, y \in cs : x[1] = y[1] => (x[2] = y[2] /\ x[3] = y[3])
+GenC(P, Q) == Len(P.ps) = Len(Q.ps) /\ LET w == GenFrom(P.ps, Q.ps, 1) IN w.ok /\ Functional3(w.cs)
+
+Universe(n) == IF n = 1 THEN Range(ArgsU) ELSE IF n = 2 THEN Range(ArgsB) ELSE {}
+MoreGeneral(P, Q) == GenC(P, Q) /\ \E a \in Universe(Len(P.ps)) : MatchesA(P, a) /\ ~MatchesA(Q, a)
+
+(* Pattern classes for which the unchanged tree's DOCUMENTED ranking does not follow subsumption; the clause is not  *)
+(* asserted for them (they stay informational observations, see /verif/out/agent_c19_report.md).  Exactly the pairs  *)
+(* of the pools that the unchanged tree resolves against subsumption fall in these classes (probe: report).          *)
+(*  1. SignalOverStructure: P has SIGNAL where Q has a structural pattern.  SIGNAL accepts every time-series but     *)
+(*     ranks 0 (operators.rst: rank(Concrete TS | Signal) = 0), below every structural pattern.                      *)
+(*  2. BareOverBundle: P has a bare whole-time-series variable (possibly under REF) where Q has a TSB pattern with   *)
+(*     two or more distinct whole-time-series variables: the bundle costs 1 + 5000 + 5000 > 10000 = the bare one.    *)
+TsVarNames == {"~T", "~U", "~V"}
+SignalOverStructure(p, q) == ~IsScalarTerm(p) /\ ~IsScalarTerm(q) /\ Norm(p).k = "SIG" /\ Norm(q).k # "SIG"
+BareOverBundle(p, q) == ~IsScalarTerm(p) /\ ~IsScalarTerm(q) /\ Norm(p).k = "tv" /\ Norm(q).k = "TSB"
+                        /\ Cardinality(PVars(Norm(q)) \cap TsVarNames) >= 2
+SubsumptionNotAsserted(P, Q) ==
+    Len(P.ps) = Len(Q.ps) /\ \E i \in 1..Len(P.ps) : SignalOverStructure(P.ps[i], Q.ps[i]) \/ BareOverBundle(P.ps[i], Q.ps[i])
+
+(* what GenC promises, without the output-closure condition of MatchesA *)
+ParamsAccept(c, args) == LET w == CandWalk(c, args) IN w.ok /\ Functional(w.cs)
+GenSoundOn(P, Q) == GenC(P, Q) => \A a \in Universe(Len(P.ps)) : ParamsAccept(Q, a) => ParamsAccept(P, a)
+
+AFail(cands, args, rk, o) ==
+    LET core == AFailCore(cands, args, rk, o)
+        selc == CHOOSE c \in cands : c.l = o.sel
+    IN  IF core # "" THEN core
+        ELSE IF o.kind = "ok" /\ \E q \in cands : q # selc /\ MatchesA(q, args) /\ MoreGeneral(selc, q)
+                                                  /\ ~SubsumptionNotAsserted(selc, q)
+             THEN "C19.selected_candidate_is_strictly_more_general_than_another_matching_candidate"
+        ELSE ""
 
 =============================================================================
